@@ -11,6 +11,7 @@ p1 = open(os.path.join(d, "design_asbuilt_part1.md")).read()
 p2 = open(os.path.join(d, "design_asbuilt_part2.md")).read()
 p3 = open(os.path.join(d, "design_asbuilt_part3.md")).read()
 p4 = open(os.path.join(d, "design_asbuilt_part4.md")).read()
+p5 = open(os.path.join(d, "design_asbuilt_part5.md")).read() if os.path.exists(os.path.join(d, "design_asbuilt_part5.md")) else ""
 strengthen = open(os.path.join(d, "design_strengthen.md")).read() if os.path.exists(os.path.join(d, "design_strengthen.md")) else "(in progress)"
 # part1 ends with the fixes table (my rows); part3 starts with further rows of the same table
 i = p1.index("### 11.3")
@@ -19,6 +20,6 @@ head, fixes = p1[:i], p1[i:]
 j = head.rindex("| C07 |")
 k = head.index("\n", j) + 1
 head = head[:k] + p2 + head[k:]
-out = "\n" + head.rstrip("\n") + "\n\n" + fixes.rstrip("\n") + "\n" + p3 + p4.replace("@@STRENGTHEN@@", strengthen)
+out = "\n" + head.rstrip("\n") + "\n\n" + fixes.rstrip("\n") + "\n" + p3 + p4.replace("@@STRENGTHEN@@", strengthen) + p5
 open(p, "w").write(s.rstrip("\n") + "\n" + out)
 print("DESIGN.md section 11 rebuilt")
